@@ -38,7 +38,7 @@ func c15Pool(name string) []string {
 	} else {
 		pool = append(pool, "["+b[0]+","+b[2]+")", "(,"+b[1]+"]")
 	}
-	pool = append(pool, "not-a-version!", "", " ", "-1", "--", "\""+b[0]+"\"", b[0]+" "+b[2], b[0]+"\n", "1.0%d", "2.0%s%%")
+	pool = append(pool, "not-a-version!", "", " ", "-1", "--", "\""+b[0]+"\"", b[0]+" "+b[2], b[0]+"\n", "1.0%d", "2.0%s%%", "vers:"+c15Scheme(name)+"/>="+b[0]+"|<"+b[2])
 	return pool
 }
 
@@ -46,6 +46,16 @@ func c15Pool(name string) []string {
 var c15Fingerprint = []string{"1.0.0", "1.0", "v1.0.0", "1.0.0-dev", "1.0.0-alpha", "1.0.0-beta", "cci.20230101", "1.0.0-rc.1", "1.0.0.rc1", "1.0~rc1", "1.0_rc1", "1.0-r1",
 	"1:1.0-1", "1.0-1", "1!1.0", "1.0.post1", "1.0-SNAPSHOT", "1.0a1", "2024.01.15", "1.0.0-esr", "1.0^git1", "1.0_p1", "1-0", "1.0.0+b", "v1.0.0-0.20200101000000-abcdef123456",
 	"1.0.0-RC1", "dev-master", "1.0.0-1", "1.0.0-x", "1.0.1", "1.0-sp", "1.0.a", "01.0.0", "=1.0.0", "v1", "1"}
+
+func c15Scheme(name string) string {
+	switch name {
+	case "debian":
+		return "deb"
+	case "semver":
+		return "generic"
+	}
+	return name
+}
 
 type c15Env struct {
 	r    *core.Result
